@@ -88,10 +88,19 @@ def run_spec(spec, repo_root=None, timeout=1500):
             time.sleep(1.1)   # mtime granularity: strictly newer than anything the previous holder wrote
             subprocess.run("find . -name '*.rs' -o -name '*.toml' -o -name '*.c' -o -name '*.h' | xargs touch", shell=True, cwd=os.path.join(sc, "repo"))
             pr = subprocess.run(cmd, cwd=os.path.join(sc, "repo"), env=env, capture_output=True, text=True, timeout=timeout)
+            txt = pr.stdout + "\n" + pr.stderr
+            if "VXW-FAIL" in txt and "VXW-DONE" in txt:
+                # a contradiction must be reproducible: several witnesses have time bounds (liveness within N seconds) that a heavily
+                # loaded machine can exceed. The same binary is run a second time; contradictions count only if the second run
+                # contradicts the oracle too (any case - racy defects do not hit the same case twice). The lock is still held.
+                pr2 = subprocess.run(cmd, cwd=os.path.join(sc, "repo"), env=env, capture_output=True, text=True, timeout=timeout)
+                txt2 = pr2.stdout + "\n" + pr2.stderr
+                if "VXW-FAIL" not in txt2 and "VXW-DONE" in txt2:
+                    n1 = len(re.findall(r"VXW-FAIL ", txt))
+                    txt = re.sub(r"VXW-FAIL ", "VXW-UNCONFIRMED ", txt) + "\nVXW-NOTE %d contradiction(s) of the first run did not recur in an immediate second run of the same binary (0 contradictions): treated as load-dependent, not counted\n" % n1
         finally:
             fcntl.flock(clock, fcntl.LOCK_UN)
             clock.close()
-        txt = pr.stdout + "\n" + pr.stderr
         for line in txt.splitlines():
             m = re.search(r"VXW-FAIL (\{.*\})", line)
             if m:
